@@ -42,6 +42,9 @@ def confirm(prop, outdir, n, name, inplace=None):
     env = dict(os.environ, PYTHONPATH=wt, PYTHONDONTWRITEBYTECODE='1')
     patch = os.path.join(outdir, 'patch%s.diff' % n)
     demo = os.path.join(outdir, 'demo%s.py' % n)
+    if not (os.path.exists(patch) and os.path.exists(demo)):
+        print(name, 'MISSING deliverables')
+        return False
     res = {}
     try:
         res['demo_clean'] = sh(['/venv/bin/python', demo], cwd=wt, env=env, timeout=180)
